@@ -1,1 +1,13 @@
-// reference server modules
+//! Reference RDP server written from the specifications; shares no code with rdp-rs.
+pub mod bytes;
+pub mod build;
+pub mod strict;
+pub mod server;
+pub mod world;
+pub mod md4;
+pub mod rc4;
+pub mod md5h;
+pub mod der;
+pub mod ntlm;
+pub mod cssp;
+pub mod nla;
